@@ -48,7 +48,13 @@ static void assert_invariant(void) {
   ASSERT(inv_min, "ALWAYS-FIRES: dth_min is a true minimum: no armed timer is earlier than the one the kernel timer is programmed for");
 }
 static void mk(int i) { T[i] = ir_bump(P_SZ_timer_refs); IR_ST32(T[i] + P_OFF_dt_heap_entry, INVALID_ID); IR_ST32(T[i] + P_OFF_dt_heap_entry + 4, INVALID_ID);
-  SYM_AT2(in_key, i, 0); SYM_AT2(in_key, i, 1); IR_ST64(T[i] + P_OFF_dt_timer, in_key[i][0]); IR_ST64(T[i] + P_OFF_dt_timer + 8, in_key[i][1]); }
+  SYM_AT2(in_key, i, 0); SYM_AT2(in_key, i, 1);
+#if defined(SYMHEAP) && SYMHEAP != 2
+  /* only the keys of heap SYMHEAP are symbolic; the other heap gets concrete keys in its heap order (its comparisons then do not fork paths): the two heaps are sifted independently,
+     so root-level sift-downs of >= 3 timers become affordable (one heap at a time) */
+  { int o = 1 - SYMHEAP; int pos = i; if (o == 1) { static const int pv[] = PERM; pos = N; for (int j = 0; j < N; j++) if (pv[j] == i) pos = j; } in_key[i][o] = 10ull * (u64)pos + 5; }
+#endif
+  IR_ST64(T[i] + P_OFF_dt_timer, in_key[i][0]); IR_ST64(T[i] + P_OFF_dt_timer + 8, in_key[i][1]); }
 static const int PERMV[] = PERM;
 void harness(void) {
   ir_init_globals(); H = ir_bump(P_SZ_heap);
@@ -77,6 +83,9 @@ void harness(void) {
   WITNESS_IF(oldmin0 == T[in_victim], "the earliest timer was removed");
 #elif OP == 2    /* re-arm one with new keys (dispatch_source_set_timer / interval advance) */
   in_victim = VICTIM; ASSUME(in_victim < N); SYM_AT(in_newkey, 0); SYM_AT(in_newkey, 1);
+#if defined(SYMHEAP) && SYMHEAP != 2
+  in_newkey[1 - SYMHEAP] = NEWKEY_OTHER;      /* the re-armed timer's key in the concrete heap: case split by the driver (first / middle / last) */
+#endif
   IR_ST64(T[in_victim] + P_OFF_dt_timer, in_newkey[0]); IR_ST64(T[in_victim] + P_OFF_dt_timer + 8, in_newkey[1]);
   _dispatch_timer_heap_update(H, T[in_victim]); check_invariant("update");
   WITNESS_IF(IR_LD64(H + P_OFF_dth_min) == T[in_victim], "re-armed timer became the earliest");
